@@ -1051,6 +1051,11 @@ class GMRFVectorModel(object):
         self._increment(data=data, verbose=verbose)
 
     def _increment(self, data, verbose):
+        # The update is computed in the precision of the model (integer-typed
+        # data, e.g. uint8 pixels, wrap around in the differences and products
+        # that are formed below)
+        data = np.asarray(data, dtype=np.result_type(data.dtype, self.dtype))
+
         # Empty memory
         self.precision = 0
 
